@@ -180,7 +180,12 @@ var verifMu sync.Mutex
 // VerifGo starts a harness thread.
 func VerifGo(name string, fn func()) {
 	verifWG.Add(1)
-	go func() { defer verifWG.Done(); fn() }()
+	go func() {
+		defer verifWG.Done()
+		// the executor runs a harness goroutine when the main thread blocks: give it time to get there
+		time.Sleep(50 * time.Millisecond)
+		fn()
+	}()
 }
 
 // VerifAtQuiescence runs fn once every thread has finished.
